@@ -104,7 +104,146 @@ func c03Cases(tier string, seed int64) []core.Case {
 			}
 		}
 	}
+	// a second answer that OVERLAPS the first one (a watchdog goroutine of the implementation answering while the
+	// worker's own answer is still inside Respond): the first responder is parked at a point inside Respond
+	for _, pt := range []string{"respond.claimed", "respond.posted", "respond.queued"} {
+		for _, dotu := range []bool{true, false} {
+			pt, dotu := pt, dotu
+			cases = append(cases, core.Case{ID: fmt.Sprintf("overlapping-answers/%s/dotu=%v", pt, dotu), Run: func(ctx *core.Ctx) core.Result {
+				return c03Overlap(ctx, pt, dotu)
+			}})
+		}
+	}
 	return cases
+}
+
+// c03Overlap: while the implementation's answer to a request is parked inside Respond, a second goroutine of the
+// implementation answers the same request again; exactly one reply may reach the wire, with the right content.
+func c03Overlap(ctx *core.Ctx, point string, dotu bool) core.Result {
+	var res core.Result
+	s := NewSess(Config{Dotu: dotu, Msize: 8192})
+	c := s.Dial()
+	defer c.Hangup()
+	ver := "9P2000"
+	if dotu {
+		ver = "9P2000.u"
+	}
+	if r, err := c.Version(8192, ver, W); err != nil || r.Msg == nil {
+		res.Inconclusive = "c03: version failed"
+		return res
+	}
+	tag := uint16(0)
+	rpc := func(m *wire.Msg) *wire.Msg {
+		tag++
+		m.Tag = tag
+		r, err := c.Rpc(m, W)
+		if err != nil || r.Msg == nil {
+			return nil
+		}
+		return r.Msg
+	}
+	if a := rpc(&wire.Msg{Type: wire.Tattach, Fid: 1, Afid: wire.NOFID, Uname: "root", Nuname: 0}); a == nil || a.Type != wire.Rattach {
+		res.Inconclusive = "c03: attach failed"
+		return res
+	}
+	for i := 0; i < 70; i++ {
+		rpc(&wire.Msg{Type: wire.Tstat, Fid: 1})
+	}
+	kinds := []string{"stat", "read", "walk", "clunk", "open", "stat"}
+	for i := 0; i < 24 && len(res.Violations) < 3; i++ {
+		kind := kinds[i%len(kinds)]
+		f := uint32(100 + 2*i)
+		if w := rpc(&wire.Msg{Type: wire.Twalk, Fid: 1, Newfid: f, Wname: []string{fmt.Sprintf("d%d", i)}}); w == nil || w.Type != wire.Rwalk {
+			res.Inconclusive = "c03: setup walk failed"
+			return res
+		}
+		var m *wire.Msg
+		switch kind {
+		case "stat":
+			m = &wire.Msg{Type: wire.Tstat, Fid: f}
+		case "read":
+			m = &wire.Msg{Type: wire.Tread, Fid: f, Offset: uint64(i), Count: 40}
+		case "walk":
+			m = &wire.Msg{Type: wire.Twalk, Fid: f, Newfid: f + 1, Wname: []string{"d1"}}
+		case "clunk":
+			m = &wire.Msg{Type: wire.Tclunk, Fid: f}
+		case "open":
+			m = &wire.Msg{Type: wire.Topen, Fid: f, Mode: 0}
+		}
+		tag++
+		m.Tag = tag
+		plan := script.NewPlan()
+		s.Ops.SetPlan(c.ID, m.Tag, plan)
+		hold := s.Ctl.HoldAt(point, c.ID, int(m.Tag), -1, 2*time.Second)
+		seq0 := s.Log.Seq()
+		_ = c.Send(m)
+		res.Evals++
+		if !hold.WaitReached(W) {
+			res.Inconclusive = "c03: the answer never reached " + point
+			hold.Release()
+			return res
+		}
+		// the overlapping second answer; it must not block and must not produce anything
+		req := s.Ops.Request(c.ID, m.Tag)
+		second := make(chan struct{})
+		go func() {
+			if req != nil {
+				req.Respond()
+			}
+			close(second)
+		}()
+		select {
+		case <-second:
+		case <-time.After(300 * time.Millisecond):
+			// still inside: it may legitimately wait for the first responder; let that one go on
+		}
+		hold.Release()
+		<-second
+		var got []*Reply
+		deadline := time.Now().Add(W)
+		for {
+			r, err := c.WaitTag(m.Tag, time.Until(deadline))
+			if err != nil {
+				break
+			}
+			got = append(got, r)
+			deadline = time.Now().Add(30 * time.Millisecond) // a duplicate, if any, follows at once
+		}
+		c.Quiesce(W)
+		det := map[string]interface{}{"request": m.String(), "first_responder_parked_at": point, "dotu": dotu}
+		var e script.Event
+		for _, ev := range s.Log.Snapshot(seq0) {
+			if ev.Kind == "op" && ev.Tag == m.Tag {
+				e = ev
+			}
+		}
+		switch {
+		case len(got) == 0:
+			res.Violate("C03;missing-reply;overlap;"+point, "no reply for a request that was answered twice by overlapping calls", det)
+		case len(got) > 1:
+			res.Violate("C03;duplicate-reply;overlap;"+point, fmt.Sprintf("%d replies for one request answered twice by overlapping calls", len(got)), det)
+		default:
+			ft := uint8(go9p.QTDIR)
+			want := wire.Encode(expectedReply(m, plan, e, ft, dotu), dotu)
+			if !bytes.Equal(want, got[0].Raw) {
+				res.Violate("C03;wrong-content;overlap;"+point, "reply is not what the implementation produced: "+got[0].Msg.String(), det)
+			}
+		}
+		// the connection still works and the fid bookkeeping was done once (a clunked fid is gone, others answer)
+		st := rpc(&wire.Msg{Type: wire.Tstat, Fid: f})
+		if kind == "clunk" {
+			if st == nil || st.Type != wire.Rerror {
+				res.Violate("C03;overlap;bookkeeping", "a fid clunked by a doubly answered Tclunk still answers", det)
+			}
+		} else if st == nil || st.Type != wire.Rstat {
+			res.Violate("C03;overlap;bookkeeping", fmt.Sprintf("after a doubly answered %s the fid answers %v", kind, st), det)
+		}
+		res.Sig(fmt.Sprintf("overlap|%s|%s|%v", point, kind, dotu))
+		if i == 2 {
+			res.Sample(det)
+		}
+	}
+	return res
 }
 
 type c03req struct {
